@@ -346,6 +346,7 @@ func genEngine(p *params, emit func(string, bool)) {
 		genControl(p, prop, emit)
 		genStartingPoints(p, emit)
 		genStaleStepReads(p, emit)
+		genTryCtl(p, emit)
 	case "C05":
 		genFaults(p, emit, 1.0)
 		genRelayBatches(p, emit)
@@ -547,6 +548,11 @@ func genControl(p *params, prop string, emit func(string, bool)) {
 			h = append(h, pr.rounds(2)...)
 			rec := append([]string{adv(300)}, pr.rounds(4)...)
 			singleFaultsAt(pr, h, rec, emit, func(op, kind string) bool {
+				if strings.HasPrefix(op, "st:") && strings.HasSuffix(op, "/o") {
+					// ... and at every call of the relay that carries the announcements to them: an entry into a hooked state, a
+					// deletion request, is not lost on its way either
+					return kind == "NS" || kind == "SD" || kind == "SC" || kind == "DO"
+				}
 				return strings.HasPrefix(op, "st:") && (strings.Contains(op, "/h") || strings.HasSuffix(op, "/d") || strings.HasSuffix(op, "/r")) &&
 					(kind == "LK" || kind == "AK" || kind == "ST")
 			})
@@ -1081,6 +1087,41 @@ func genPauseResumePause(p *params, emit func(string, bool)) {
 				ops = append(ops, pr.rounds(2*n+3)...)
 			}
 			emit(scenario(pr, ops), true)
+		}
+	}
+}
+
+// OUTSIDE the model's script language (kind engx: no model run; the extracted token clauses tok_ok are evaluated on the
+// implementation's Store and invocation tokens): a function that calls r.Cancel / r.Pause, has the call fail BEFORE taking effect (a
+// Store fault at that call) and, swallowing the error, returns a declared next status. The write that follows is an ordinary
+// status write of the run that was handed to the function: one version on, no reason of a pause that never happened
+func genTryCtl(p *params, emit func(string, bool)) {
+	for _, c := range []int{0, 1} {
+		for _, items := range []string{
+			"S:1:Y,%d,2:2:0:0:0 S:2:R,1,3:3:0:0:0",
+			"S:1:R,1,2:2:0:0:0 C:2:Y,%d,3:3 S:3:R,1,4:4:0:0:0",
+			"S:1:R,1,2:2:0:0:0 T:2:10:Y,%d,3:3:0 S:3:R,1,4:4:0:0:0",
+		} {
+			pr := mkProg("try-ctl", fmt.Sprintf(items, c))
+			for _, fault := range []string{"", "@ST.0.eb"} {
+				ops := []string{"tr:1:0:4", "tr:2:0:7"}
+				for _, o := range pr.rounds(3) {
+					if strings.Contains(o, "/s1.") || strings.Contains(o, "/p2") {
+						o += fault
+					}
+					ops = append(ops, o)
+				}
+				ops = append(ops, "cb:1:2"+fault, adv(10))
+				for _, o := range pr.rounds(2) {
+					if strings.Contains(o, "/p2") {
+						o += fault
+					}
+					ops = append(ops, o)
+				}
+				ops = append(ops, "ct:1:1", "ct:2:1")
+				ops = append(ops, pr.rounds(4)...)
+				emit("engx"+strings.TrimPrefix(scenario(pr, ops), "eng"), true)
+			}
 		}
 	}
 }
